@@ -224,6 +224,140 @@ pub fn gen_commit(rng: &mut Rng, plan: &mut Plan, n: u64, mutate: bool, tune: bo
     Commit { n, feerate, to_holder, to_cp, offered, received }
 }
 
+/// The generator's own simulation of the chain as seen by the channel's monitor: the channel is set up at
+/// height 3 (three seed headers); `blocks[i]` is the kind of the block at height 4+i
+/// (0 = unrelated, 1 = contains the funding tx, 2 = contains a spend of the funding outpoint).
+pub struct ChainSim {
+    pub blocks: Vec<u64>,
+}
+
+impl ChainSim {
+    pub fn new() -> ChainSim {
+        ChainSim { blocks: Vec::new() }
+    }
+    pub fn state(&self) -> (u64, u64, u64) {
+        let n = self.blocks.len() as u64;
+        let depth = |k: u64| self.blocks.iter().position(|b| *b == k).map(|i| n - i as u64).unwrap_or(0);
+        (3 + n, depth(1), depth(2))
+    }
+    pub fn good(&self) -> bool {
+        let (_, fd, cd) = self.state();
+        fd >= 1 && cd == 0
+    }
+    pub fn can(&self, kind: u64) -> bool {
+        match kind {
+            1 => !self.blocks.contains(&1),
+            2 => self.blocks.contains(&1) && !self.blocks.contains(&2),
+            _ => true,
+        }
+    }
+    pub fn blk(&mut self, kind: u64) -> String {
+        self.blocks.push(kind);
+        let (h, fd, cd) = self.state();
+        format!("blk {} {} {} {}", kind, h, fd, cd)
+    }
+    pub fn unblk(&mut self) -> Option<String> {
+        self.blocks.pop()?;
+        let (h, fd, cd) = self.state();
+        Some(format!("unblk {} {} {}", h, fd, cd))
+    }
+}
+
+/// On-chain-validator scenarios: valid contents, so that acceptance depends on the chain state (funding
+/// confirmed to depth 0/1/2, reorged out, funding outpoint spent, spend reorged out — all through real
+/// blocks) and on which side's counter is ahead; both orders of (holder validate N, counterparty sign N),
+/// retries of already signed / validated numbers, chain changes interleaved anywhere.
+pub fn gen_onchain_case(rng: &mut Rng) -> Vec<String> {
+    let mut pol = Pol::default_testnet();
+    pol.onchain = true;
+    pol.mask = if rng.chance(1, 12) { 1 << BIT_ACTIVE_UTXO } else { 0 };
+    let outbound = rng.chance(1, 2);
+    let setup = SetupNums {
+        outbound, value: 3_000_000 + rng.below(3) * 1_000_000, push: 0, holder_delay: 6, cp_delay: 7,
+        ctype: pick_u64(rng, &[1, 3]), upfront: 0, up_spend: false, up_allow: false,
+    };
+    let mut plan = Plan { pol: pol.clone(), setup: setup.clone(), height: 1000 };
+    let mut ops = vec![pol.line(), setup.line()];
+    let mut sim = ChainSim::new();
+    // expected counters and the contents last accepted per number
+    let (mut nh, mut nc, mut nr) = (0u64, 0u64, 0u64);
+    let mut pending: Option<Commit> = None;
+    let mut cur_hold: Option<Commit> = None;
+    let mut cur_cp: Option<Commit> = None;
+    let gate_ok = |sim: &ChainSim, n: u64, pol: &Pol| n == 0 || sim.good() || !pol.errs(BIT_ACTIVE_UTXO);
+    // a scripted prefix that puts one side ahead of the other, then the free walk
+    let mut script: Vec<&str> = match rng.below(6) {
+        0 => vec!["cp", "hold", "revoke", "fund", "hold", "revoke", "bad", "cp", "cpretry", "holdretry", "heal", "cp"],
+        1 => vec!["fund", "cp", "hold", "revoke", "cp", "bad", "hold", "cpretry", "holdretry", "heal", "hold", "revoke"],
+        2 => vec!["cp", "hold", "revoke", "hold", "fund", "hold", "revoke", "cprevoke", "cp", "spend", "cp", "hold"],
+        _ => vec![],
+    };
+    script.reverse();
+    let steps = 8 + rng.below(14);
+    for _ in 0..steps {
+        let act: &str = match script.pop() {
+            Some(a) => a,
+            None => *rng.pick(&["cp", "cp", "hold", "hold", "revoke", "revoke", "cprevoke", "cpretry", "holdretry",
+                                "holdagain", "fund", "mine", "mine", "spend", "unblk", "unblk", "bad", "heal"]),
+        };
+        match act {
+            "fund" => if sim.can(1) { ops.push(sim.blk(1)) } else { ops.push(sim.blk(0)) },
+            "mine" => ops.push(sim.blk(0)),
+            "spend" => if sim.can(2) { ops.push(sim.blk(2)) } else if sim.can(1) { ops.push(sim.blk(1)) },
+            "unblk" => if let Some(l) = sim.unblk() { ops.push(l) },
+            "bad" => {
+                // make the chain state bad for new commitments: reorg the funding out, or spend it
+                if sim.good() {
+                    if rng.chance(1, 2) {
+                        while sim.blocks.contains(&1) { ops.push(sim.unblk().unwrap()) }
+                    } else {
+                        if rng.chance(1, 2) { ops.push(sim.blk(0)) }
+                        ops.push(sim.blk(2));
+                    }
+                }
+            }
+            "heal" => {
+                // back to a good state: reorg the spend out and/or (re)confirm the funding
+                while sim.blocks.contains(&2) { ops.push(sim.unblk().unwrap()) }
+                if sim.can(1) { ops.push(sim.blk(1)) }
+                if rng.chance(1, 2) { ops.push(sim.blk(0)) }
+            }
+            "cp" => {
+                let n = nc;
+                let cm = gen_commit(rng, &mut plan, n, false, false);
+                ops.push(cm.cp_line(0));
+                if n <= nr + 1 && gate_ok(&sim, n, &pol) { nc += 1; cur_cp = Some(cm) }
+            }
+            "cpretry" => if let Some(cm) = &cur_cp {
+                let mut cm2 = cm.clone();
+                if rng.chance(1, 4) { cm2.to_cp = cm2.to_cp.wrapping_add(1) }
+                ops.push(cm2.cp_line(0));
+            },
+            "hold" => {
+                let n = nh;
+                let cm = gen_commit(rng, &mut plan, n, false, false);
+                ops.push(cm.hold_line(true));
+                if gate_ok(&sim, n, &pol) { pending = Some(cm) }
+            }
+            "holdagain" => if let Some(cm) = &pending { ops.push(cm.hold_line(true)) },
+            "holdretry" => if let Some(cm) = &cur_hold {
+                let mut cm2 = cm.clone();
+                if rng.chance(1, 4) { cm2.to_holder = cm2.to_holder.wrapping_add(1) }
+                ops.push(cm2.hold_line(true));
+            },
+            "revoke" => {
+                ops.push(format!("revoke {}", nh));
+                if let Some(cm) = pending.take() { cur_hold = Some(cm); nh += 1 }
+            }
+            _ => {
+                ops.push(format!("cprevoke {}", nr));
+                if nc >= nr + 2 { nr += 1 }
+            }
+        }
+    }
+    ops
+}
+
 impl Group for C05 {
     fn property(&self) -> &'static str {
         "C05"
@@ -275,6 +409,46 @@ impl Group for C05 {
                 "setup 0 5000000000 0 6 7 1 0 0 0",
                 "cp 0 0 0 0 0 0 0",
             ]),
+            // on-chain validator, real blocks: holder ahead (validated + revoked 1), then the funding outpoint is
+            // spent on chain, then the request to sign the NEW counterparty commitment 1 must be refused;
+            // the retry of counterparty 0 is gated too (the code gates every counterparty n > 0 ... n = 0 is free),
+            // the retry of the current holder commitment 1 legitimately passes; after the spend is reorged out
+            // counterparty 1 is signed
+            v(&[
+                "policy 1 4 2016 1000000001 10000 1000 16777216 0 253 333333 222000 0",
+                "setup 0 3000000 0 6 7 3 0 0 0",
+                "cp 0 0 0 0 2998000 0 0",
+                "hold 0 0 0 2998000 0 0 1",
+                "revoke 0",
+                "blk 1 4 1 0",
+                "hold 1 0 1000000 1998000 0 0 1",
+                "revoke 1",
+                "blk 2 5 2 1",
+                "cp 1 0 0 1000000 1998000 0 0",
+                "hold 1 0 1000000 1998000 0 0 1",
+                "hold 2 0 1000000 1998000 0 0 1",
+                "unblk 4 1 0",
+                "cp 1 0 0 1000000 1998000 0 0",
+                "unblk 3 0 0",
+                "cp 1 0 0 1000000 1998000 0 0",
+                "cp 2 0 0 1000000 1998000 0 0",
+            ]),
+            // the other order: counterparty ahead, funding reorged out, NEW holder commitment 1 refused
+            v(&[
+                "policy 1 4 2016 1000000001 10000 1000 16777216 0 253 333333 222000 0",
+                "setup 1 3000000 0 6 7 1 0 0 0",
+                "blk 1 4 1 0",
+                "cp 0 0 0 2999000 0 0 0",
+                "hold 0 0 2999000 0 0 0 1",
+                "revoke 0",
+                "cp 1 0 0 1999000 1000000 0 0",
+                "unblk 3 0 0",
+                "hold 1 0 1999000 1000000 0 0 1",
+                "hold 0 0 2999000 0 0 0 1",
+                "blk 0 4 0 0",
+                "blk 1 5 1 0",
+                "hold 1 0 1999000 1000000 0 0 1",
+            ]),
             // on-chain validator: unburied funding, then buried, then closed on chain
             v(&[
                 "policy 1 4 2016 1000000001 10000 1000 16777216 0 253 333333 222000 0",
@@ -290,6 +464,9 @@ impl Group for C05 {
         ]
     }
     fn gen_case(&self, rng: &mut Rng, _tier: Tier) -> Vec<String> {
+        if rng.chance(1, 3) {
+            return gen_onchain_case(rng);
+        }
         let mut plan = gen_plan(rng);
         let mut ops = Vec::new();
         let mut body: Vec<String> = Vec::new();
